@@ -67,7 +67,7 @@ def load_json(path, default=None):
 # ------------------------------------------------------------------------------------------------
 def run_verus(path, multiple_errors, rlimit=None, timeout=600):
     cmd = [VERUS, "--edition=2024", os.path.basename(path), "--output-json", "--time-expanded",
-           "--error-format=json", "--multiple-errors", str(multiple_errors), "--num-threads", "8"]
+           "--error-format=json", "--multiple-errors", str(multiple_errors), "--num-threads", "4"]
     if rlimit:
         cmd += ["--rlimit", str(rlimit)]
     t0 = time.time()
@@ -328,9 +328,16 @@ def main(argv):
     canaries = []
     checker_cmds = []
     solver_us = 0
+    # all Verus runs (normal + vacuity canary per unit) are independent: run them concurrently
+    from concurrent.futures import ThreadPoolExecutor
+    jobs = {}
+    with ThreadPoolExecutor(max_workers=min(12, 2 * len(cfg["units"]))) as ex:
+        for unit in cfg["units"]:
+            for canary in (False, True):
+                jobs[(unit, canary)] = ex.submit(analyse_unit, unit, gen_dir, tier, canary)
     for unit in cfg["units"]:
         try:
-            ur = analyse_unit(unit, gen_dir, tier)
+            ur = jobs[(unit, False)].result()
         except AnchorLost as e:
             undecided.append(f"anchor-lost unit={unit}: {e}")
             continue
@@ -372,7 +379,7 @@ def main(argv):
         rewrites += [dict(r, unit=unit) for r in ur.gen.rewrites]
         # ---- vacuity canary: same unit, `assert(false)` inserted at the entry of every body => every function must FAIL
         try:
-            cr = analyse_unit(unit, gen_dir, tier, canary=True)
+            cr = jobs[(unit, True)].result()
         except AnchorLost as e:
             undecided.append(f"anchor-lost (canary) unit={unit}: {e}")
             continue
